@@ -174,6 +174,7 @@ func c18Generate(seed int64) []c18Input {
 		c18KindInputs(add, k, l.memo, l.Attacker.Addr)
 	}
 	c18OLVMInputs(l, add)
+	c18CfgInputs(l, add)
 	// malformed bytes
 	raws := [][]byte{{}, []byte("{"), []byte("null"), []byte("[]"), []byte("0"), []byte("\"x\""), []byte("{}"), []byte(`{"type":1}`), []byte(`{"type":"x"}`),
 		[]byte(`{"type":1,"data":"!!!"}`), []byte(`{"type":1,"data":null,"fee":null,"memo":null,"signatures":null}`), []byte(`{"type":99999999999999999999}`),
@@ -209,6 +210,30 @@ func c18Generate(seed int64) []c18Input {
 		ins = append(ins, c18Input{ID: len(ins), Kind: kind, Name: name, Class: class, Tx: hex.EncodeToString(tx), World: "eth"})
 	})
 	return ins
+}
+
+// c18CfgInputs: well-formed configuration-update proposals for every option key (values inside and outside
+// the admissible ranges, proposers that can and cannot pay): the update functions of action/govUpdate.go run
+// in validate-only mode on each, and afterwards the node must answer as before
+func c18CfgInputs(l *lab, add func(kind, name, class string, tx []byte)) {
+	GAS = 1000000
+	dl := l.Rep.H + 5000
+	for i, k := range cfgUpdateKeys {
+		vals := append([]string{}, cfgUpdateVals...)
+		if k == "feeOption.minFeeDecimal" {
+			vals = append(vals, "3", "9", "12", "17", "18", "19")
+		}
+		for j, v := range vals {
+			us := []Key{l.W.Users[(i+j)%len(l.W.Users)]}
+			if j%4 == 0 {
+				us = append(us, l.W.Poor[0]) // cannot pay the initial funding: refused after the update function ran
+			}
+			for _, u := range us {
+				add("PROPOSAL_CREATE", fmt.Sprintf("cfg %s:%s by %s", k, v, u.Addr.String()[:8]), "cfgupdate",
+					txPropCreateCfg(u, fmt.Sprintf("c18cfg_%d_%d_%s", i, j, u.Addr.String()[:6]), k+":"+v, oltAmt("1000000000"), dl, l.memo()))
+			}
+		}
+	}
 }
 
 // worker: run the given inputs one by one; after each, a probe transaction must still succeed
@@ -248,6 +273,14 @@ func c18RunWorld(ins []c18Input, mode string, world string) int {
 		}
 		res := l.Rep.RunBlock(&BlockIn{Txs: [][]byte{tx}, Absent: map[int]bool{}})
 		if len(res.Txs) != 1 || res.Txs[0].Code != 0 {
+			return false
+		}
+		// "unchanged behaviour": a payment priced below the configured minimal fee is still refused by the
+		// mempool check (what an input leaves in memory — an installed fee option — would answer it differently)
+		probeN++
+		low := signRaw(action.RawTx{Type: action.SEND, Data: decodeSigned(tx).Data, Memo: fmt.Sprintf("probe%d", probeN),
+			Fee: action.Fee{Price: action.Amount{Currency: "OLT", Value: *amt("999999999")}, Gas: GAS}}, from)
+		if c := l.Rep.CheckTx(low); c.Code == 0 {
 			return false
 		}
 		h, _ := l.Rep.Info()
